@@ -5,7 +5,7 @@
    InplaceXlate = xlate, find = find_all/find_first); printer, reach and the tree classes: C32/Spec_C32.v. *)
 From Coq Require Import String.
 From Coq Require Import NArith List Bool.
-From F8 Require Import C32.XmlBase C32.Xml C32.Spec_C32 C32.XmlProofs C32.XmlTreeProofs C32.XmlTotal.
+From F8 Require Import C32.XmlBase C32.Xml C32.Spec_C32 C32.XmlProofs C32.XmlTreeProofs C32.XmlTotal C32.XmlNumProofs.
 Import ListNotations.
 Local Open Scope N_scope.
 
@@ -36,6 +36,14 @@ Theorem c32_entity_single_partial : forall v : str,
   value_ok v = true -> xlate (escape v) = v.
 Proof. exact c32_entity_single_partial_lemma. Qed.
 Print Assumptions c32_entity_single_partial.
+
+(* The same for numeric references ("markup characters written as entity or numeric references"):
+   & < > and both quotes written as decimal (&#38; ...) or hexadecimal (&#x26; ...) references are decoded
+   back to the text under the same hypothesis. *)
+Theorem c32_entity_numeric_partial : forall v : str,
+  value_ok v = true -> xlate (escape_dec v) = v /\ xlate (escape_hex v) = v.
+Proof. exact c32_entity_numeric_partial_lemma. Qed.
+Print Assumptions c32_entity_numeric_partial.
 
 (* find: for every tree whose tags are non-empty and free of '/' (all the parser ever builds, and all
    trees of c32_tree_partial), every start element, EVERY path string and optional attribute test, the
